@@ -95,6 +95,23 @@ class ClassInfo(object):
         return c.methods[name]
     return None
 
+  @property
+  def is_abstract_class(self):
+    """Some abstractmethod is still unimplemented: Python refuses to instantiate the class."""
+    if '_abs' not in self.__dict__:
+      names = set()
+      for c in self.mro():
+        names.update(c.methods)
+      self._abs = False
+      for n in names:
+        for c in self.mro():
+          if n in c.methods:
+            self._abs = self._abs or bool(getattr(c.methods[n], 'is_abstract', False))
+            break
+          if n in c.class_attrs or any(f[0] == n for f in c.attrs_fields):
+            break          # a plain (attrs) attribute implements the abstract property
+    return self._abs
+
   def find_setter(self, name):
     for c in self.mro():
       if name in c.setters:
